@@ -104,6 +104,21 @@ def selectFin : Nat → List Res → MStream → Nat
       | _ => selectFin 0 rs.tail s
   | d + 1, rs, (_, x) :: s => selectFin (subDepth d x) rs s
 
+/-- assumption check reported by the driver: every consumed result is one `Path.test()` can
+    give for its event — `True` never for an END event, the event tuple itself only for events
+    other than START/END, never a foreign tuple or a non-boolean scalar -/
+def selOk : Nat → List Res → MStream → Bool
+  | _, _, [] => true
+  | 0, rs, (none, _) :: s => selOk 0 rs s
+  | 0, rs, (some _, x) :: s =>
+      match rs.headD .none with
+      | .hit => !x.isEnd && (if x.isStart then selOk 1 rs.tail s else selOk 0 rs.tail s)
+      | .self => !x.isStart && !x.isEnd && selOk 0 rs.tail s
+      | .attrs _ => selOk 0 rs.tail s
+      | .none => selOk 0 rs.tail s
+      | _ => false
+  | d + 1, rs, (_, x) :: s => selOk (subDepth d x) rs s
+
 def select (rs : List Res) (s : MStream) : Option MStream :=
   if selectFin 0 rs s = 0 then some (selectGo 0 rs s) else none
 
